@@ -132,14 +132,16 @@ func checkC18(c *Ctx) {
 R18.2 failure is reported: every path of initRun that observes an error ends in os.Exit(<non-zero>);
 R18.3 same defaults and the named package: defaults come from config.NewDefaultKoanf (the loader's source) unmarshalled into a RootConfig; the packages map is a literal keyed by the raw first argument with config {all: true} (no key-path string is built from the argument);
 R18.4 what init writes the loader reads: for every exported field of Config, RootConfig, PackageConfig, InterfaceConfig and ReplaceType the yaml name equals the koanf name (embedded: inline <-> squash);
-R18.5 the written file is the one a plain run picks up: FindConfig tries all config file names in a directory before moving to its parent.`
+R18.5 the written file is the one a plain run picks up: FindConfig tries all config file names in a directory before moving to its parent;
+R18.6 the follow-up run gives every interface selected by the written 'all: true' its own deep copy of the package config (C08 rule R08.3), so the per-interface rendering of structname/filename cannot leak from one interface to the next.`
 	c.NotDecided = "YAML quoting of unusual package paths (yaml.v3); that the follow-up run generates mocks (C07/C09)."
 	c.Assumptions = []string{"os.OpenFile with O_CREATE|O_EXCL fails if the file exists", "yaml.v3 round-trips map keys"}
 	c.Rule("R18.1", 3, "")
 	c.Rule("R18.2", 3, "")
-	c.Rule("R18.3", 3, "")
+	c.Rule("R18.3", 4, "")
 	c.Rule("R18.4", 25, "")
 	c.Rule("R18.5", 1, "")
+	c.Rule("R18.6", 1, "")
 	r := loadRepo(c, packages.LoadSyntax, "", "./internal/cmd", "./config", "./internal/config")
 	cmdp := r.Pkg("internal/cmd")
 	info := cmdp.TypesInfo
@@ -232,6 +234,22 @@ R18.5 the written file is the one a plain run picks up: FindConfig tries all con
 			}
 			return true
 		})
+		// what init serialises is the documented defaults and nothing else: NewDefaultKoanf loads
+		// exactly one source, the struct of defaults (no environment, file or flag provider)
+		if nd := FuncDecl(r.Pkg("config"), "NewDefaultKoanf"); nd != nil {
+			cinfo := r.Pkg("config").TypesInfo
+			var provs []string
+			ast.Inspect(nd.Body, func(n ast.Node) bool {
+				if call, ok := n.(*ast.CallExpr); ok && strings.HasSuffix(calleeName(cinfo, call), "koanf/v2.Koanf).Load") && len(call.Args) >= 1 {
+					if t := cinfo.TypeOf(call.Args[0]); t != nil {
+						provs = append(provs, t.String())
+					}
+				}
+				return true
+			})
+			okOnly := len(provs) == 1 && strings.Contains(provs[0], "providers/structs.")
+			c.Check(okOnly, "R18.3", "NewDefaultKoanf|defaults-only", r.Pos(nd.Pos()), "NewDefaultKoanf loads the defaults struct only", fmt.Sprintf("NewDefaultKoanf loads %v: what `mockery init` writes as defaults must not depend on the environment, a file or flags of the init run", provs))
+		}
 		c.Check(uses, "R18.3", "NewRootConfig|defaults", r.Pos(nr.Pos()), "the loader uses the same defaults", "NewRootConfig no longer starts from NewDefaultKoanf")
 	}
 	okPkgs := false
@@ -260,6 +278,8 @@ R18.5 the written file is the one a plain run picks up: FindConfig tries all con
 	c.Check(okPkgs, "R18.3", "initRun|package-entry", r.Pos(fd.Pos()), "packages = {<args[0]>: {config: {all: true}}} as a map literal", "the package entry is not a map literal keyed by the raw first argument with all: true (a key path assembled from the argument would split package paths containing the delimiter)")
 	ruleTagAgreement(c, r, "R18.4")
 	ruleFindConfig(c, r, "R18.5")
+	// R18.6: the file init writes selects interfaces with all: true, i.e. through GetInterfaceConfig's copies
+	subRules(c, "R18.6", "own-config", "the config init writes uses all: true, whose interfaces get their config from GetInterfaceConfig: ", func(sub *Ctx) { ruleNoSharing(sub, r, r.Pkg("config")) })
 }
 
 // ---------------------------------------------------------------------------
